@@ -381,6 +381,12 @@ def gen_tempname():
     s += "(* operations performed on TEMP_FILE_COUNTER by one call, in program order *)\n"
     s += "Definition temp_counter_ops : list atomic_op := [%s].\n" % "; ".join(ops)
     s += "Definition temp_counter_init : N := %s.\n" % decl.group(3)
+    bits = {"AtomicUsize": 64, "AtomicU64": 64, "AtomicU32": 32, "AtomicU16": 16, "AtomicU8": 8,
+            "AtomicIsize": 63, "AtomicI64": 63, "AtomicI32": 31, "AtomicI16": 15, "AtomicI8": 7}.get(decl.group(1))
+    if bits is None or decl.group(1) != decl.group(2):
+        raise GenError("unrecognised type of TEMP_FILE_COUNTER: %s / %s" % (decl.group(1), decl.group(2)))
+    s += "(* number of distinct values the counter type %s can take before it wraps: 2^bits *)\n" % decl.group(1)
+    s += "Definition temp_counter_bits : N := %d.\n" % bits
     s += "(* the value bound to `count` is the result of this operation *)\n"
     s += 'Definition temp_count_from : string := "%s".\n' % (which.group(1) if which else "?")
     s += "Definition temp_name_format : list name_piece := [%s].\n" % "; ".join(pieces)
